@@ -143,12 +143,13 @@ func (c *Ctx) buildSpecPrelude() (err error) {
 }
 
 func (c *Ctx) gen(fn *ssa.Function, prop string) (*Gen, error) {
-	return c.genWith(fn, prop, nil, nil, nil)
+	return c.genWith(fn, prop, nil, nil, nil, nil)
 }
 
-func (c *Ctx) genWith(fn *ssa.Function, prop string, forbid []Forbid, orderHeaps []string, guarded []GuardedBy) (*Gen, error) {
+func (c *Ctx) genWith(fn *ssa.Function, prop string, forbid []Forbid, orderHeaps []string, guarded []GuardedBy, ffs []ForbidField) (*Gen, error) {
 	g := newGen(c.P, c.S, prop, fn, c.Frames)
 	g.guardedBy = guarded
+	g.forbidFields = ffs
 	g.forbid = forbid
 	g.orderHeaps = orderHeaps
 	g.preDecl = c.PreDecl
